@@ -335,6 +335,7 @@ def case_typed_input(ctx, name, shape, dtype_name):
     paths, ex = core.run_paths(go, pre, max_paths=64)
     ctx.explored(ex, len(paths))
     rp = lambda m: _replay_typed(name, shape, _vals(m, x), dtype_name)
+    ctx.fallback = rp
     for pi, pth in enumerate(paths):
         if pth.exc is not None:
             ctx.prove("path%d: %s raises %s for a %s array" % (pi, name, type(pth.exc).__name__, dtype_name), pre + pth.pc, z3.BoolVal(False), replay=rp, axioms=False)
